@@ -24,7 +24,7 @@ def store_op(pids, n_contents, allow_none=True, validation=True, kinds=("str",),
         "cks": st.sampled_from(["none", "none", "right", "right", "upper", "wrong"]),
         "cks_algo": algo,
         "size": st.sampled_from(["none", "none", "right", "right", "wrong"]),
-        "dsize": st.sampled_from([-1, 1, 7]),
+        "dsize": st.sampled_from([-1, 1, 7, "blk8192", "blk4096"]),
         "flip": st.integers(0, 31),
         "offset": st.integers(0, 9000),
     }
